@@ -127,11 +127,14 @@ type replayer struct {
 	viol     []string
 	static   map[int]bool // executed under a static ancestor (or static itself)
 	touched  map[common.Address]bool
+	authorities map[common.Address]bool
+	origin   common.Address
 }
 
 func newReplayer(m *mstate, obs map[int]byte, initcode map[int][]byte) *replayer {
 	return &replayer{m: m, obs: obs, initcode: initcode, used: map[int]bool{}, ctx: map[int]common.Address{},
-		created: map[int]common.Address{}, why: map[int]string{}, static: map[int]bool{}, touched: map[common.Address]bool{}}
+		created: map[int]common.Address{}, why: map[int]string{}, static: map[int]bool{}, touched: map[common.Address]bool{},
+		authorities: map[common.Address]bool{}, origin: originAddr()}
 }
 
 // body applies the frame's program; false = the frame must fail (reason in r.why[n.id]).
@@ -166,6 +169,13 @@ func (r *replayer) body(n *node, self common.Address, static bool) bool {
 			}
 			if r.m.canPay(self, s.amount) {
 				r.m.move(self, eoas[s.to], s.amount)
+			}
+		case sAuthCall:
+			// In a static context the property demands that nothing changes (whatever the opcode reports).
+			r.authorities[authorityOf(s.key)] = true
+			if !static {
+				r.m.acct(authorityOf(s.key)).nonce++
+				r.m.move(r.origin, eoas[s.to], s.amount)
 			}
 		case sChild:
 			if why := r.child(s.child, self, static); why != "" {
